@@ -321,9 +321,21 @@ func genC08Case(t *rapid.T) SSOCase {
 			e.ACS = []world.ACSSpec{acs(world.BindPost, "https://earlier.example/acs/post", "0", A), acs(world.BindRedirect, "https://earlier.example/acs/redirect", "1", A)}
 		}, true)
 	}
-	if c.Hist == nil && rapid.IntRange(0, 5).Draw(t, "brokenbefore") == 0 {
+	if c.Hist == nil && rapid.IntRange(0, 2).Draw(t, "brokenbefore") == 0 {
 		// earlier replies (pages for the POST binding among them) broke while they were written
 		c.Hist = &History{SP: c.SP, Warmups: []string{"sso-refused", "logout", "sso-refused"}, BrokenAfter: rapid.SampledFrom([]int{1, 64, 300, 700, 1500}).Draw(t, "brokenafter"), WarmupByOther: rapid.Bool().Draw(t, "broken-other")}
+		if len(c.Defects) == 0 && rapid.Bool().Draw(t, "broken-then-refused") {
+			// what follows a broken page is most telling when it is a page itself: the request under test is refused
+			d := Defect{Name: "dest-other-host"}
+			for _, x := range c08DefectCatalogue {
+				if strings.HasPrefix(x.Name, "dest-") {
+					d = x
+					break
+				}
+			}
+			c.Defects = []Defect{d}
+			applyModelDefect(&c, d, c.Host)
+		}
 	}
 	if c.Hist == nil && rapid.IntRange(0, 4).Draw(t, "sameid") == 0 && c.Req.ID != A && c.Req.ID != "" {
 		// the same request ID was used shortly before, by this provider or by another one
